@@ -22,8 +22,8 @@ Map2(A, B, G(_, _)) ==
 Map3(A, B, D, G(_, _, _)) ==
   [j \in 1..(Len(A) * Len(B) * Len(D)) |->
      G(A[((j - 1) \div (Len(B) * Len(D))) + 1], B[(((j - 1) \div Len(D)) % Len(B)) + 1], D[((j - 1) % Len(D)) + 1])]
-RECURSIVE Flat(_)
-Flat(ss) == IF Len(ss) = 0 THEN <<>> ELSE ss[1] \o Flat(Tail(ss))
+\* (no RECURSIVE operator below this line up to Items/Frags: TLC evaluates a constant definition once
+\* and for all only if no recursive operator occurs in it - otherwise once per state)
 
 \* ---- (A) trees ------------------------------------------------------------------------------------
 DollarA == S(<<36, 97>>)                  \* the text  $a
@@ -34,7 +34,7 @@ NarrowLeaves == <<RecB, C(1), DollarA>>
 
 BinSeq == <<"Add", "Sub", "Mult", "Div", "Mod", "Eq", "NotEq", "Lt", "GtE", "In", "And", "Or">>
 Un(A) == LET not(t) == <<"Not", t>>  fmt(t) == <<"Fmt", t>> IN Map1(A, not) \o Map1(A, fmt)
-Bi(A, B) == LET bin(op) == LET g(a, b) == <<op, a, b>> IN Map2(A, B, g) IN Flat(Map1(BinSeq, bin))
+Bi(A, B) == LET g(op, a, b) == <<op, a, b>> IN Map3(BinSeq, A, B, g)
 Cond3(A, B, D) == LET g(c, t, e) == <<"Cond", c, t, e>> IN Map3(A, B, D, g)
 
 S1 == WideLeaves
@@ -54,12 +54,23 @@ Lets ==
   IN Map3(LetExprs, BinSeq, NarrowLeaves, l) \o Map3(LetExprs, BinSeq, NarrowLeaves, r)
      \o Map3(LetExprs, NarrowLeaves, NarrowLeaves, c) \o Map1(LetExprs, f)
 
+\* bounded-depth (non-recursive) versions of FormulaText!Has for the trees of this model (depth <= 5)
+KidIdx(t) == CASE t[1] \in {"Const", "Name", "Attr"} -> {} [] t[1] = "Let" -> {3, 4} [] OTHER -> 2..Len(t)
+H0(t, w) == Test(t, w)
+H1(t, w) == Test(t, w) \/ \E j \in KidIdx(t) : H0(t[j], w)
+H2(t, w) == Test(t, w) \/ \E j \in KidIdx(t) : H1(t[j], w)
+H3(t, w) == Test(t, w) \/ \E j \in KidIdx(t) : H2(t[j], w)
+H4(t, w) == Test(t, w) \/ \E j \in KidIdx(t) : H3(t[j], w)
+H5(t, w) == Test(t, w) \/ \E j \in KidIdx(t) : H4(t[j], w)
+HasStrB(t) == H5(t, "str")
+HasFmtB(t) == H5(t, "fmt")
+
 General == <<"dollar", "rec", "return", "comment", "indent", "crlf", "cr", "multiline">>
 Blocks == <<"ifret", "ifearly", "ifassign", "ifone", "iftab">>
 CondAtEnd(t) == t[1] = "Cond" \/ (t[1] = "Let" /\ t[4][1] = "Cond")
 SpellingsOf(t) ==
-  General \o (IF HasStr(t) \/ HasFmt(t) THEN <<"fstr">> ELSE <<>>)
-          \o (IF HasStr(t) THEN <<"triple">> ELSE <<>>)
+  General \o (IF HasStrB(t) \/ HasFmtB(t) THEN <<"fstr">> ELSE <<>>)
+          \o (IF HasStrB(t) THEN <<"triple">> ELSE <<>>)
           \o (IF CondAtEnd(t) THEN Blocks ELSE <<>>)
           \o (IF t[1] = "Let" THEN <<"semicolon">> ELSE <<>>)
 AllSpellings == General \o <<"fstr", "triple">> \o Blocks \o <<"semicolon">>
@@ -128,10 +139,8 @@ ASSUME /\ "OUT_FILE" \in DOMAIN IOEnv
 \* ---- the invariant --------------------------------------------------------------------------------
 Other == <<"other", 0>>
 Corrupt(seq, r, v) == [seq EXCEPT ![r] = v]
-Judged(in) == \E r \in 1..Len(in.rows) : Tag(ExpF(in.tree, in.rows[r])) # "undef"
-FirstJudged(in) == CHOOSE r \in 1..Len(in.rows) :
-                     /\ Tag(ExpF(in.tree, in.rows[r])) # "undef"
-                     /\ \A q \in 1..(r - 1) : Tag(ExpF(in.tree, in.rows[q])) = "undef"
+Undefs(f) == {r \in 1..Len(f) : Tag(f[r]) = "undef"}
+MinOfSet(A) == CHOOSE x \in A : \A z \in A : x <= z
 
 VARIABLE i
 Init == i \in 1..(IF N < Lanes THEN N ELSE Lanes)
@@ -139,14 +148,16 @@ Next == i + Lanes <= N /\ i' = i + Lanes
 SpecSane ==
   LET t == Items[i].t
       in == [tree |-> t, rows |-> Rows, newrow |-> NewRow]
+      E == Expect(in, TRUE)
       good == Ref(in, TRUE)
       n1 == Len(Rows) + 1
+      judged == (1..Len(Rows)) \ Undefs(E.f)
   IN /\ WFF(t)
-     /\ \A r \in 1..Len(Rows) : IsCell(ExpF(t, Rows[r]))
-     /\ IsCell(ExpF(t, NewRow))
+     /\ HasStrB(t) = HasStr(t) /\ HasFmtB(t) = HasFmt(t)
+     /\ \A r \in 1..n1 : IsCell(E.f[r])
      /\ FOk(in, good) /\ FOk(in, Ref(in, FALSE))
      \* corrupted outcomes are rejected, each by the clause that speaks about it
-     /\ Judged(in) => "C19.meaning" \in FClauses(in, [good EXCEPT !.s1.F = Corrupt(@, FirstJudged(in), Other)])
+     /\ judged # {} => "C19.meaning" \in FClauses(in, [good EXCEPT !.s1.F = Corrupt(@, MinOfSet(judged), Other)])
      /\ "C19.meaning" \in FClauses(in, [good EXCEPT !.f_ok = FALSE])
      /\ "C19.ok" \in FClauses(in, [Ref(in, FALSE) EXCEPT !.same = FALSE])
      /\ "C19.others" \in FClauses(in, [good EXCEPT !.s3.K = Corrupt(@, n1, VInt(99))])
